@@ -28,6 +28,7 @@ import Driver.Suites.Bucket
 import Driver.Suites.Sem
 import Driver.Suites.WsRange
 import Driver.Suites.MoveSend
+import Driver.Suites.TrkDial
 import Driver.Suites.MoveCrash
 import Driver.Suites.Codec
 import Driver.Suites.Reader
@@ -81,6 +82,7 @@ def registry : List Suite := [
   Suites.Sem.suite,
   Suites.WsRange.suite,
   Suites.MoveSend.suite,
+  Suites.TrkDial.suite,
   Suites.MoveCrash.suite,
   Suites.Codec.suite,
   Suites.Reader.suite,
